@@ -220,7 +220,7 @@ func init() {
 			bound = 3
 		}
 		for _, s := range gridS() {
-			engine.ExploreS(ctx, scenario(s), engine.SConfig{Bound: bound, Shard: ctx.Shard, NShards: ctx.NShards, Deadline: ctx.Deadline})
+			engine.ExploreS(ctx, scenario(s), engine.SConfig{BothPolicies: true, Bound: bound, Shard: ctx.Shard, NShards: ctx.NShards, Deadline: ctx.Deadline})
 		}
 	})
 	hk.Replayers["C15"] = func(ctx *engine.Ctx, rp engine.Replay) []*engine.Finding {
